@@ -1,4 +1,5 @@
 import MpfVerif.Lemmas.Switch
+import MpfVerif.Lemmas.SwitchNet
 /-!
 # C03 — Switch state mirrors the hardware; handlers fire once per real change
 
@@ -9,7 +10,8 @@ removal, `is_active`-queries, mute/unmute, monitors, time steps and wake-ups (= 
 changes and deadlines) — and over every assignment `P` of behaviours to callbacks: a callback may register and remove
 handlers of its own switch (itself, a peer, one that is later in the same walk or in the same deadline bucket, for either
 state, timed or untimed) while the change or the expired bucket is being dispatched.
-Not covered: callbacks that report a switch change themselves (re-entrant `process_switch`) or act on another switch.
+Callbacks that report a switch change themselves (re-entrant `process_switch`) or act on another switch, and monitors that do
+either, are the subject of the second model `Model/SwitchNet.lean` (section "re-entrant dispatch" at the end of this file).
 -/
 namespace MpfVerif.C03
 open MpfVerif.Switch
@@ -459,5 +461,109 @@ theorem recycle_window (w : Nat) (st0 : Bool) (ops0 : List DOp) (d : Dev) (tr0 :
 example : (drun { window := 2, state := false, posted := false }
     [.change true, .to 1, .change false, .to 2, .pass, .change true, .to 3, .change false, .change true, .to 4, .pass]).map (·.2)
     = some [.post true, .post false, .post true] := by decide
+
+/-! ## Re-entrant dispatch: several switches, handlers and monitors that report changes and touch other switches
+(`Model/SwitchNet.lean`; all statements for every amount of fuel, every behaviour `P` of callbacks and monitors) -/
+
+section Reentrant
+open MpfVerif.SwitchNet
+
+/-- **reentrant_state_is_last_report.**  Along every run of the multi-switch controller — platform reports, registrations,
+removals, time steps, wake-ups, and everything the handlers and monitors do from inside the dispatch: reports of the same
+switch or of other switches (nested to any depth the fuel allows), registrations and removals on any switch — every switch
+that exists stays, and its logical state at the end is the value of the *last* `process_switch` call for it in the trace
+(top-level or nested, `NObs.rep`), or its initial state if there was none. -/
+theorem reentrant_state_is_last_report (fuel : Nat) (P : NProg) (ops : List NOp) (n : Net) (r : Net × List NObs)
+    (h : runN fuel P n ops = some r) (i : Nat) (s : NSw) (hs : n.sws[i]? = some s) :
+    ∃ s', r.1.sws[i]? = some s' ∧ s'.state = (lastRep i r.2).getD s.state := by
+  have t := track_run fuel P ops n r h i
+  simp only [stateOf, hs, Option.map_some] at t
+  cases h' : r.1.sws[i]? with
+  | none => simp [h'] at t
+  | some s' => simp only [h', Option.map_some, Option.some.injEq] at t; exact ⟨s', rfl, t⟩
+
+/-- **reentrant_duplicate_silent.**  A report — from the platform or from inside any handler or monitor — whose logical value
+is the state the switch is in changes nothing in the whole controller and invokes nothing: the only trace is the report itself. -/
+theorem reentrant_duplicate_silent (f : Nat) (P : NProg) (d i : Nat) (l v : Bool) (n : Net) (s : NSw)
+    (hd : ¬ n.maxDepth < d) (hs : n.sws[i]? = some s) (hdup : logicalOf s.invert l v = s.state) :
+    runAct (f + 1) P d (.report i l v) n = (n, [.rep i s.state]) := by
+  simp [runAct, hd, hs, hdup]
+
+/-- **changed_switch_abandons_its_wakeup** (the repaired KeyError).  While the wake-up of switch `i` walks its expired
+deadlines, as soon as a callback has reported a real change of `i` itself (`epoch` moved on — `_cancel_timed_handlers` dropped
+the dict the loops were walking), neither loop calls anything more or touches the state: the hold times of the old state are
+void, whatever is pending now belongs to the new change. -/
+theorem changed_switch_abandons_its_wakeup (f : Nat) (P : NProg) (i k ep : Nat) (n : Net) (s : NSw)
+    (hs : n.sws[i]? = some s) (he : s.epoch ≠ ep) :
+    (∀ e es, procEntriesN f P i k ep (e :: es) n = (n, [])) ∧ (∀ ks, procKeysN f P i ep (k :: ks) n = (n, [])) := by
+  constructor
+  · intro e es; simp [procEntriesN, hs, he]
+  · intro ks; simp [procKeysN, hs, he]
+
+/-- **stale_walk_arms_nothing** (the repaired double arming).  While `_call_handlers` walks the handlers of a change of switch
+`i`, once a callback of that walk has reported the next change of `i` (the switch's change counter is no longer the one of the
+change being walked — even if the switch is back in the same state), a hold-time registration met later in the walk is not
+armed: the walk goes on as if it were not there.  (Its hold time, if the switch is in that state, was armed by the newer
+change's own walk — once.) -/
+theorem stale_walk_arms_nothing (f : Nat) (P : NProg) (d i : Nat) (st : Bool) (ep : Nat) (r : NReg) (rest : List NReg) (n : Net)
+    (s : NSw) (hs : n.sws[i]? = some s) (hlive : (s.reg st).any (fun x => x.id == r.id) = true) (hms : r.ms ≠ 0)
+    (he : s.epoch ≠ ep) :
+    walk (f + 1) P d i st ep (r :: rest) n = walk f P d i st ep rest n := by
+  simp [walk, hs, hlive, hms, he]
+
+/-- **wait_future_resolves_once_at_first_matching_change.**  A `wait_for_switch` / `wait_for_any_switch` future is a set of
+ordinary handlers (callback id `id`, one per switch of the list, registered for the awaited state and hold time) whose callback
+is `_wait_handler`.  Along every run of the controller — whatever else happens, including further matching changes before the
+done-callback has removed the handlers — the future is resolved by exactly the *first* call of one of its handlers (with that
+switch, at that instant), `set_result` runs exactly once if there is such a call and never otherwise; by the controller
+theorems a call happens only for a real change into the awaited state (held for the hold time), never for a duplicate, and
+not after the handlers were removed (cancellation, `_future_done`). -/
+theorem wait_future_resolves_once_at_first_matching_change (fuel : Nat) (P : NProg) (ops : List NOp) (n : Net)
+    (r : Net × List NObs) (_h : runN fuel P n ops = some r) (id : Nat) :
+    (futAlong id {} r.2).result = firstCall id r.2 ∧
+    (futAlong id {} r.2).sets = (if (firstCall id r.2).isSome then 1 else 0) ∧
+    ∀ more, (firstCall id r.2).isSome → futAlong id {} (r.2 ++ more) = futAlong id {} r.2 := by
+  have key := futAlong_fresh id r.2 0
+  refine ⟨?_, ?_, ?_⟩
+  · show (futAlong id { result := none, sets := 0 } r.2).result = _
+    rw [key]; cases firstCall id r.2 <;> rfl
+  · show (futAlong id { result := none, sets := 0 } r.2).sets = _
+    rw [key]; cases firstCall id r.2 <;> rfl
+  · intro more hsome
+    have app : ∀ (tr : List NObs) (f : Fut), futAlong id f (tr ++ more) = futAlong id (futAlong id f tr) more := by
+      intro tr
+      induction tr with
+      | nil => intro f; rfl
+      | cons o t ih => intro f; cases o <;> simp [futAlong, ih]
+    rw [app]
+    show futAlong id (futAlong id { result := none, sets := 0 } r.2) more = futAlong id { result := none, sets := 0 } r.2
+    rw [key]
+    cases hfc : firstCall id r.2 with
+    | none => simp [hfc] at hsome
+    | some x => exact futAlong_resolved id more _ x rfl
+
+/-- two switches; handler 2 of switch 1 (inactive, hold 3) reports switch 1 active from inside its deadline bucket, which it
+shares with handler 1: the change voids the bucket (handler 1 does not fire), nothing is left pending -/
+example : (runN 40 (fun c => if c = 2 then [.report 1 true true] else []) { sws := [{}, { state := true, hw := true }] }
+    [.act (.add 1 false 3 2), .act (.add 1 false 3 1), .act (.report 1 true false), .to 3, .wake 1]).map
+      (fun r => (r.2, (r.1.sws.map (fun s => (s.state, s.timed.length, s.wake)))))
+    = some ([.rep 1 false, .call 1 2 false 3 3, .rep 1 true], [(false, 0, none), (true, 0, none)]) := by decide +kernel
+
+/-- an untimed handler leaves the state and comes back within the same instant while the walk is still running: the hold-time
+handler behind it fires once, not once per nested walk; a handler of switch 0 reports switch 1 and a monitor hears both -/
+example : (runN 60 (fun c => if c = 0 then [.report 0 true false, .report 0 true true] else if c = 5 then [.report 1 false true] else [])
+      { sws := [{}, {}], mons := [9] }
+    [.act (.add 0 true 0 0), .act (.add 0 true 2 1), .act (.add 0 false 0 5), .act (.report 0 true true), .to 2, .wake 0]).map
+      (fun r => (r.2.filter (fun o => match o with | .call _ 1 _ _ _ => true | .mon _ 1 _ => true | _ => false),
+                 r.1.sws.map (·.state)))
+    = some ([.mon 9 1 true, .call 0 1 true 2 2], [true, true]) := by decide +kernel
+
+/-- a future waiting for switch 0 or 1 to become active (handler id 500 on both): the first matching change resolves it -/
+example : (runN 20 (fun _ => []) { sws := [{}, {}] }
+    [.act (.add 0 true 0 500), .act (.add 1 true 0 500), .act (.report 1 true false), .to 1, .act (.report 1 true true),
+     .act (.report 0 true true)]).map (fun r => futAlong 500 {} r.2)
+    = some { result := some (1, 1), sets := 1 } := by decide +kernel
+
+end Reentrant
 
 end MpfVerif.C03
